@@ -9,7 +9,7 @@ READY = True
 MANIFEST = {
     "level_text": "Lean 4 theorems, for every 32-byte key, 12-byte nonce, 32-bit initial counter and input of any length: the model "
                   "of ChaCha20::apply (block loop with wrapping ++counter, partial last block, writes into a resized output vector) "
-                  "equals RFC 8439 ChaCha20 written from the RFC (quarter round, 20-round block function, constants|key|counter|nonce "
+                  "— also when the input span is the output vector itself (in-place use) — equals RFC 8439 ChaCha20 written from the RFC (quarter round, 20-round block function, constants|key|counter|nonce "
                   "layout, little-endian serialisation, block j XORed with the block of counter (counter+j) mod 2^32) and checked "
                   "against the RFC's test vectors 2.1.1, 2.2.1, 2.3.2, 2.4.2 by kernel evaluation; applying it twice returns the input "
                   "(no hypothesis at all); output length = input length; CryptoManager::decrypt_with_key inverts encrypt_with_key for "
@@ -520,8 +520,8 @@ def _id(rng) -> str:
 
 
 def gen_case(rng, idx: int, tier: str) -> Case:
-    shape = rng.choices(["short", "boundary", "twice", "into", "block", "qr", "mgr", "mgr-zero", "ctr"],
-                        weights=[30, 22, 10, 6, 8, 4, 12, 4, 4])[0]
+    shape = rng.choices(["short", "boundary", "twice", "into", "block", "qr", "mgr", "mgr-zero", "ctr", "inplace", "alias"],
+                        weights=[30, 22, 10, 6, 8, 4, 12, 4, 4, 10, 6])[0]
     ops = []
     if shape == "short":
         key, nonce = _key(rng), _nonce(rng)
@@ -545,6 +545,21 @@ def gen_case(rng, idx: int, tier: str) -> Case:
             n = rng.choice([0, 1, 63, 64, 65, 130, rng.randint(0, 200)])
             old = rng.choice([0, 1, max(0, n - 1), n, n + 1, n + 70])
             ops.append(f"applyinto {key} {nonce} {_counter(rng)} {_payload(rng, n)} {_payload(rng, old)}")
+    elif shape == "inplace":
+        # input span and output vector are the same storage
+        key, nonce = _key(rng), _nonce(rng)
+        for op in ("applyinplace", "inplacetwice", "applyinplace"):
+            n = rng.choice(BOUNDARY_LENGTHS + [0, 1, idx % 201, rng.randint(0, 200)])
+            ops.append(f"{op} {key} {nonce} {_counter(rng)} {_payload(rng, n)}")
+    elif shape == "alias":
+        # input = span over the first n bytes of an output vector of a different length
+        key, nonce = _key(rng), _nonce(rng)
+        for _ in range(2):
+            m = rng.choice([1, 2, 63, 64, 65, 128, 130, rng.randint(1, 200)])
+            n = rng.choice([0, 1, m - 1, m // 2, max(0, m - 64), rng.randint(0, m)])
+            ops.append(f"applyalias-longer {key} {nonce} {_counter(rng)} {_payload(rng, m)} {min(max(n, 0), m)}")
+        m = rng.choice([0, 1, 63, 64, 65, rng.randint(0, 130)])
+        ops.append(f"applyalias-shorter {key} {nonce} {_counter(rng)} {_payload(rng, m)} {m + rng.choice([1, 2, 63, 64, 65, 130])}")
     elif shape == "block":
         key, nonce = _key(rng), _nonce(rng)
         for _ in range(3):
@@ -615,7 +630,7 @@ def generate(ctx, budget):
         n = LONG_LENGTHS[i % len(LONG_LENGTHS)]
         ctr = [2 ** 32 - 2, 2 ** 32 - 1, 0, 2 ** 32 - 1000, 2 ** 31][i % 5] if i < 5 else _counter(rng)
         key, nonce = _key(rng), _nonce(rng)
-        op = "apply" if i % 3 != 2 else "twice"
+        op = ["apply", "applyinplace", "twice", "apply", "inplacetwice", "applyinplace"][i % 6]
         cases.append(Case(ops=[f"{op} {key} {nonce} {ctr} gen:{n}:{rng.getrandbits(48)}"], tag="long"))
     if ctx.tier == "thorough":
         key, cid = _nonzero_key(rng), _id(rng)
@@ -631,7 +646,7 @@ def nontrivial(r: CaseResult) -> bool:
         t = op.split(" ")
         if t[0] in ("qr", "block", "ctr"):
             return True
-        if t[0] in ("apply", "twice", "applyinto") and t[4] != "-" and not t[4].startswith("gen:0:") and out not in ("-", ""):
+        if t[0] in ("apply", "twice", "applyinto", "applyinplace", "inplacetwice", "applyalias-longer", "applyalias-shorter") and t[4] != "-" and not t[4].startswith("gen:0:") and out not in ("-", ""):
             return True
         if t[0].startswith("mgr_") and t[-1] != "-":
             return True
@@ -683,7 +698,7 @@ def spec() -> Spec:
         per_case_timeout=30.0,
         rule="cases of 1-5 ops on the real ChaCha20.cpp / CryptoManager.cpp: apply at every length 0..200 (swept), at "
              "63/64/65 … 511/512/513 and at 64 KiB ± 1, counters {0, 1, 2^31, 2^32-2, 2^32-1, 2^32-k, random}, keys/nonces "
-             "random, all-zero, all-FF, single non-zero byte; apply twice; apply into a pre-filled vector; single blocks; "
+             "random, all-zero, all-FF, single non-zero byte; apply twice; apply into a pre-filled vector; in place (input span = the output vector), in place twice, input span over a prefix of a longer / of the reserved capacity of a shorter output vector; single blocks; "
              "quarter rounds; CryptoManager static and object round trips (random nonce/key taken from the implementation "
              "as validated hints). distinct = sha256 of the op list; non-trivial = at least one op pushed >= 1 byte through "
              "the cipher (or evaluated a block / quarter round / derive_counter)",
